@@ -3077,9 +3077,13 @@ func ruleBlockEncodePath(c *Ctx, p *core.Program, rule string) {
 			}
 		}
 	}
-	owned := func(fn *ssa.Function) bool {
-		if fn == eb || fn.Parent() == eb {
+	var owned func(fn *ssa.Function) bool
+	owned = func(fn *ssa.Function) bool {
+		if fn == eb {
 			return true
+		}
+		if fn.Parent() != nil {
+			return owned(fn.Parent()) // a closure belongs to whoever its function belongs to
 		}
 		cs := callers[fn]
 		if len(cs) == 0 {
